@@ -204,6 +204,7 @@ def main():
   n = 30 if rep.tier == "quick" else 600
   texts, items = [], []
   n_models = 0
+  n_rejected = [0]
   for i in range(n):
     directed = i < 4 or (rep.tier != "quick" and i % 25 == 0)
     try:
@@ -227,6 +228,16 @@ def main():
       if selected_sep and "kernel_quantizer" in str(e):
         rep.finding("C12-separable-conv-gets-kernel-quantizer-argument",
                     f"model_quantize on a model with a selected SeparableConv2D raises {type(e).__name__}: {str(e)[:160]}", {"dict": d})
+      elif isinstance(e, AssertionError) and "Only integer bits" in str(e):
+        # the configuration is REJECTED by model_quantize (an adaptive entry with parameters): not a violation; the Coq model
+        # must predict the rejection for this (dictionary, preference, model)
+        lits_ = []
+        for a in cfg0["config"]["layers"]:
+          cls_, name_, ub_, act_, _, _ = layer_rec(a)
+          lits_.append(f"(L {cs(cls_)} {cs(name_)} {vlib.blit(ub_)} {copt(act_)} None None)")
+        texts.append(f"(if model_rejected {vlib.blit(prefer)} {coq_dict(d)} [" + "; ".join(lits_) + "] then [\"REJECTED\"] else [\"accepted\"])")
+        items.append((i, d, bits, "REJECTED", [a["config"]["name"] for a in cfg0["config"]["layers"]]))
+        n_rejected[0] += 1
       else:
         rep.violation(f"model-quantize-raises-{i}", f"model_quantize raised {type(e).__name__}: {str(e)[:300]}", {"dict": d, "layers": [l.name for l in model.layers]})
       continue
@@ -264,7 +275,7 @@ def main():
       cls, name, ub, act, kq, bq = layer_rec(a)
       lits.append(f"(L {cs(cls)} {cs(name)} {vlib.blit(ub)} {copt(act)} None None)")
     want = [layer_rec(b) + (str(b["config"].get("total_bits", "")),) for b in q_layers]
-    texts.append(f"render_model_full {vlib.blit(prefer)} {coq_dict(d)} {cs(str(bits))} [" + "; ".join(lits) + "]")
+    texts.append(f"(if model_rejected {vlib.blit(prefer)} {coq_dict(d)} [" + "; ".join(lits) + f"] then [\"REJECTED\"] else render_model_full {vlib.blit(prefer)} {coq_dict(d)} {cs(str(bits))} [" + "; ".join(lits) + "])")
     items.append((i, d, bits, want, [a["config"]["name"] for a in src_layers]))
   U.quantized_model_from_json = orig
   # Coq prediction, compared as strings
@@ -283,14 +294,15 @@ def main():
     for (i, d, bits, want, names), blk in zip(items, blocks):
       got = re.findall(r'"((?:[^"]|"")*)"', blk.split(": list")[0])
       got = [g.replace('""', '"') for g in got]
-      exp = ["|".join([w[0], w[1], "<none>" if w[3] is None else w[3], "<none>" if w[4] is None else w[4], "<none>" if w[5] is None else w[5], w[6]]) for w in want]
+      exp = ["REJECTED"] if want == "REJECTED" else ["|".join([w[0], w[1], "<none>" if w[3] is None else w[3], "<none>" if w[4] is None else w[4], "<none>" if w[5] is None else w[5], w[6]]) for w in want]
       if got != exp:
         j = next((k for k, (a, b) in enumerate(zip(got, exp)) if a != b), 0)
         rep.violation(f"conversion-differs-{i}", f"layer {names[j] if j < len(names) else '?'}: model_quantize produced [{exp[j] if j < len(exp) else None}] "
                       f"but the Coq model gives [{got[j] if j < len(got) else None}]", {"dict": d, "activation_bits": bits})
   rep.note(models_converted=n_models, compared_with_model=len(items),
-           adaptive_activation_conversions=sum(1 for it in items for w in it[3] if w[0] == "QAdaptiveActivation"),
-           qactivation_conversions=sum(1 for it in items for w in it[3] if w[0] == "QActivation"))
+           adaptive_activation_conversions=sum(1 for it in items if it[3] != "REJECTED" for w in it[3] if w[0] == "QAdaptiveActivation"),
+           qactivation_conversions=sum(1 for it in items if it[3] != "REJECTED" for w in it[3] if w[0] == "QActivation"),
+           configurations_rejected_by_assertion=n_rejected[0])
   if items:
     rep.sample({"dictionary": items[0][1], "activation_bits": items[0][2], "converted_layers": items[0][3][:4]})
   # LeakyReLU conversion (known finding under the pinned Keras)
